@@ -432,6 +432,16 @@ def cases(tier, seed):
       for (omin, omax) in ((None, None), (0.0, 1.0), (-1.0, None), (None, 2.5)):
         add('case_pwl', nk=2 + (mono + 1) + (1 if init == 'equal_slopes' else 0), units=1 + abs(mono), mono=mono, omin=omin, omax=omax, init=init)
   add('case_pwl', nk=4, units=2, mono=1, omin=0.0, omax=1.0, init='equal_slopes', clamp_min=True, clamp_max=True, missing=True)
+  # the documented string spellings of the same configurations
+  for init in ('equal_heights', 'equal_slopes'):
+    for mono in ('decreasing', 'increasing', 'none'):
+      add('case_pwl', nk=3 + (1 if init == 'equal_slopes' else 0), units=2 if mono == 'decreasing' else 1, mono=mono, omin=-1.0, omax=2.5, init=init)
+  add('case_pwl', nk=3, units=1, mono='decreasing', omin=None, omax=None, init='equal_heights')
+  add('case_lattice_linear', sizes=[3, 2], units=2, mono=['increasing', 'none'], uni=None, omin=0.0, omax=1.0, init='linear_initializer')
+  add('case_lattice_linear', sizes=[2, 3], units=1, mono=['none', 'none'], uni=['none', 'peak'], omin=None, omax=2.5, init='linear_initializer')
+  add('case_lattice_random', sizes=[2, 3], units=2, mono=['increasing', 'increasing'], omin=0.0, omax=1.0, init='random_monotonic_initializer',
+      max_schedules=40, seed=seed)
+  add('case_kfl', ls=2, dims=2, units=2, terms=1, mono=['increasing', 'none'], omin=0.0, omax=None, timeout=60)
   for (omin, omax) in ((None, None), (0.0, None), (None, 1.0), (0.0, 1.0), (-1.0, 2.5)):
     for mono in ([1, 0], [1, 1], None):
       add('case_kfl', ls=2, dims=2, units=1, terms=2, mono=mono, omin=omin, omax=omax,
